@@ -6429,6 +6429,8 @@ class Path(Shape, MutableSequence):
                     p.append(Move(end=subpath[0].start))
             p += subpath
         self._segments = p._segments
+        self._length = None
+        self._lengths = None
         if isinstance(self._segments[0], Move):
             self._segments[0].start = prepoint
         return self
@@ -7822,6 +7824,9 @@ class Subpath:
         size = len(self)
         if size == 0:
             return
+        # The cached lengths of the backing path are in the old order.
+        self._path._length = None
+        self._path._lengths = None
         start = 0
         end = size - 1
         if isinstance(self[-1], Close):
